@@ -214,6 +214,13 @@ void execute_c02(const Plan &plan, Verdict &v) {
             if (op.kind == "over") {
                 w.input(std::string((size_t) cfg.inbuf + 3, 'Z'));
                 COUNT("fault_oversize_chunk");
+                int guard = 0;
+                while (SCPI_ErrorCount(w.ctx) > 0 && guard++ < 40) {
+                    int c;
+                    std::string t;
+                    bool h;
+                    w.fw_pop(c, t, h);
+                }
                 continue;
             }
             if (op.kind == "junk" && op.has_s) {
@@ -389,6 +396,11 @@ void execute_c02(const Plan &plan, Verdict &v) {
                     COUNT("fault_alloc_failed_113_text");
                 }
             }
+            // every undefined unit left exactly one -113 in the queue (16 entries, drained before and after each message: no overflow possible)
+            if (!v.violated && ui != undefined_written.size())
+                v.fail("113-not-queued", fmt("have=%zu want=%zu allocfail=%d", ui, undefined_written.size(), g_alloc.failed > 0),
+                       fmt("message \"%s\": %zu undefined header(s) but %zu -113 entr%s in the error queue", c_escape(op.s).substr(0, 100).c_str(), undefined_written.size(), ui,
+                           ui == 1 ? "y" : "ies"));
             g_alloc.failed = 0;
         }
         v.trace_hash = w.hash();
